@@ -234,34 +234,7 @@ def run(repo, rep, tier):
         rep.ob("C01.R3", c, f"_pack_decimal128: `{U(c)}` is reached for non-float values only", guarded,
                "" if guarded else "Decimal(float) is the exact binary expansion (1000000.1 -> 1000000.0999999999767...); truncating it to 17 digits stores a value one ulp low for some 15-digit floats",
                key="C01.R3@_pack_decimal128:decimal-of-float")
-    # the integer mantissa keeps every significant digit of the float (repr needs at most 17)
-    pf = repo.func("cell.py", "_pack_decimal128")
-    kk = None
-    knode = pf
-    for n in body_walk(pf):
-        if isinstance(n, ast.Assign) and U(n.targets[0]) == "exp" and isinstance(n.value, ast.BinOp) and isinstance(n.value.op, ast.Sub) and "adjusted()" in U(n.value.left):
-            kk = try_const(n.value.right, repo.consts)
-            knode = n
-        if isinstance(n, ast.AugAssign) and U(n.target) == "exp" and isinstance(n.op, ast.Sub) and kk is None and isinstance(try_const(n.value, repo.consts), int):
-            prev = [a for a in body_walk(pf) if isinstance(a, ast.Assign) and U(a.targets[0]) == "exp" and "adjusted()" in U(a.value)]
-            if prev:
-                kk = try_const(n.value, repo.consts)
-                knode = n
-    if kk is not None:
-        ok = isinstance(kk, int) and 16 <= kk <= 33
-        rep.ob("C01.R3", knode, f"_pack_decimal128: mantissa scaled to {kk + 1 if isinstance(kk, int) else kk} significant digits", ok,
-               "" if ok else f"`int(dec.scaleb(...))` truncates: with {kk + 1 if isinstance(kk, int) else kk} digits kept, floats whose shortest repr has 17 digits (29.999999999999996) lose their last digit on every save",
-               key="C01.R3@_pack_decimal128:digits")
-    else:
-        rep.info("C01.R3", "_pack_decimal128: digit count of the scaled mantissa not recognised (no verdict)")
-    # bias and field placement agree between pack and unpack
-    pk, up = U(repo.func("cell.py", "_pack_decimal128")).replace(" ", ""), U(repo.func("cell.py", "_unpack_decimal128")).replace(" ", "")
-    ok = "buffer[15]|=exp>>7" in pk and "buffer[14]|=(exp&127)<<1" in pk and "(buffer[15]&127)<<7|buffer[14]>>1" in up and "DECIMAL128_BIAS" in pk and "-DECIMAL128_BIAS" in up
-    rep.ob("C01.R3", repo.func("cell.py", "_unpack_decimal128"), "exponent bits and bias placed identically by pack and unpack", ok, "", key="C01.R3@exponent-fields")
-    ok = "buffer[i]=mantissa&255" in pk and "mantissa=mantissa*256+buffer[i]" in up and "range(13,-1,-1)" in up
-    rep.ob("C01.R3", repo.func("cell.py", "_unpack_decimal128"), "mantissa bytes little-endian on both sides", ok, "", key="C01.R3@mantissa-bytes")
-    ok = "ifvalue<0:buffer[15]|=128" in pk.replace("\n", "") and "buffer[15]&128" in up
-    rep.ob("C01.R3", repo.func("cell.py", "_pack_decimal128"), "sign bit placed identically", ok, "", key="C01.R3@sign")
+    rep.sub(check_decimal128, repo, rep)
 
     # ---- R4 string keys are never memoised across the per-save reset
     path = [("cell.py", "Cell._to_buffer"), ("model.py", "_NumbersModel.table_string_key"), ("model.py", "DataLists.lookup_key"),
@@ -277,6 +250,178 @@ def run(repo, rep, tier):
     rep.floor("C01.R2", 25)
     rep.floor("C01.R3", 5)
     rep.floor("C01.R4", 7)
+
+
+def check_decimal128(repo, rep):
+    """Writer and reader of the 16-byte decimal field agree bit for bit (provenance maps, not spelling)."""
+    from ..bits import bv
+    from ..linear import Lin
+    from ..symexec import Straight, lin_opaque, loop_domain, subst
+
+    env = dict(repo.consts)
+    BIAS = env.get("DECIMAL128_BIAS")
+    if not isinstance(BIAS, int):
+        raise AnalysisError("constants.py: DECIMAL128_BIAS is not a foldable int")
+    pf, uf = repo.func("cell.py", "_pack_decimal128"), repo.func("cell.py", "_unpack_decimal128")
+    sp, su = Straight(pf), Straight(uf)
+    rets = [n for n in body_walk(pf) if isinstance(n, ast.Return) and isinstance(n.value, ast.Name)]
+    if not rets:
+        raise AnalysisError("_pack_decimal128: returned buffer not found")
+    buf = rets[-1].value.id
+    ubuf = uf.args.args[0].arg
+
+    def in_loop(n):
+        return any(isinstance(p, (ast.While, ast.For)) for p in _anc(n))
+
+    # ---- digits kept: mantissa = int(dec.scaleb(-X)),  X = adjusted - K
+    sc = [c for c in body_walk(pf) if isinstance(c, ast.Call) and last_attr(c.func) == "scaleb" and c.args]
+    if len(sc) != 1:
+        raise AnalysisError("_pack_decimal128: scaleb call not found")
+    stmt = sc[0]
+    while not isinstance(stmt, ast.stmt):
+        stmt = stmt._parent
+    X = lin_opaque(sp.at(stmt, sc[0].args[0]), env).scale(-1)
+    atoms = [k for k in X.t if "adjusted()" in k]
+    if len(X.t) == 1 and len(atoms) == 1 and X.t[atoms[0]] == 1:
+        kk = -X.c
+        ok = 16 <= kk <= 33
+        rep.ob("C01.R3", sc[0], f"_pack_decimal128: mantissa scaled to {kk + 1} significant digits", ok,
+               "" if ok else f"`int(dec.scaleb(...))` truncates: with {kk + 1} digits kept, floats whose shortest repr has 17 digits (29.999999999999996) lose their last digit on every save",
+               key="C01.R3@_pack_decimal128:digits")
+    else:
+        raise AnalysisError(f"_pack_decimal128: scale exponent `{X}` is not adjusted() - K")
+
+    # ---- byte writes outside the mantissa loop
+    writes = []
+    for n in body_walk(pf):
+        tgt = n.target if isinstance(n, ast.AugAssign) else (n.targets[0] if isinstance(n, ast.Assign) and len(n.targets) == 1 else None)
+        if isinstance(tgt, ast.Subscript) and U(tgt.value) == buf and not in_loop(n):
+            idx = try_const(tgt.slice, env)
+            if not isinstance(idx, int):
+                raise AnalysisError(f"_pack_decimal128: write to {U(tgt)} with a non-constant index")
+            if isinstance(n, ast.AugAssign) and not isinstance(n.op, (ast.BitOr, ast.Add)):
+                raise AnalysisError(f"_pack_decimal128: `{U(n)}` is not an or-in of bits")
+            cond = [p for p in _anc(n) if isinstance(p, ast.If)]
+            writes.append((idx, bv(sp.at(n, n.value), env), cond, n))
+    uncond = [(i, b, n) for i, b, c, n in writes if not c]
+    srcs = set()
+    for _, b, _n in uncond:
+        srcs |= b.sources()
+    pack_map = {}  # (byte, bit) -> source bit of the biased exponent
+    for i, b, _n in uncond:
+        for pos, (_s, sb) in b.bits.items():
+            pack_map[(i, pos)] = sb
+    E_txt = next(iter(srcs)) if len(srcs) == 1 else None
+    ok_src = E_txt is not None
+    if ok_src:
+        E = lin_opaque(ast.parse(E_txt, mode="eval").body, env)
+        diff = E - X
+        ok_src = diff.is_const() and diff.c == BIAS
+    # ---- reader: exponent
+    jret = [n for n in body_walk(uf) if isinstance(n, ast.Return) and n.value is not None]
+    fv = [x for x in ast.walk(jret[-1].value) if isinstance(x, ast.FormattedValue)] if jret else []
+    if len(fv) != 2:
+        raise AnalysisError("_unpack_decimal128: float(f'{mantissa}E{exp}') not found")
+    m_expr, e_expr = fv[0].value, fv[1].value
+    e_sub = su.at(jret[-1], e_expr)
+    el = None
+    if isinstance(e_sub, ast.BinOp) and isinstance(e_sub.op, ast.Sub) and try_const(e_sub.right, env) == BIAS:
+        el = e_sub.left
+    elif isinstance(e_sub, ast.BinOp) and isinstance(e_sub.op, ast.Add) and try_const(e_sub.right, env) == -BIAS:
+        el = e_sub.left
+    ok_exp = False
+    detail = ""
+    if el is not None and ok_src:
+        rb = bv(el, env, byte_arrays={ubuf})
+        # compose: reader bit p comes from byte (i, pos) which the writer filled with exponent bit pack_map[(i, pos)]
+        comp = {}
+        for p, (s_, sb) in rb.bits.items():
+            i = int(s_[len(ubuf) + 1:-1]) if s_.startswith(ubuf + "[") and s_[len(ubuf) + 1:-1].isdigit() else None
+            comp[p] = pack_map.get((i, sb))
+        need = (BIAS + 400).bit_length()
+        ok_exp = all(comp.get(p) == p for p in range(need)) and all(v == p for p, v in comp.items() if v is not None) and not rb.ones \
+            and all(p < 14 for p in rb.bits)
+        detail = f"reader takes exponent bit p from {rb}; writer placed {sorted(pack_map.items())}"
+    elif el is None:
+        detail = f"the reader's exponent is `{U(e_sub)}`, not <bits> - DECIMAL128_BIAS"
+    else:
+        detail = f"the writer stores `{E_txt}` which is not the scale exponent + DECIMAL128_BIAS"
+    rep.ob("C01.R3", uf, "exponent bits and bias placed identically by pack and unpack", ok_exp, "" if ok_exp else detail, key="C01.R3@exponent-fields")
+
+    # ---- mantissa bytes: writer loop
+    wl = [n for n in body_walk(pf) if isinstance(n, ast.While)]
+    ok_w = False
+    wdetail = "writer loop not recognised"
+    if len(wl) == 1:
+        loop = wl[0]
+        t = loop.test
+        mvar = t.id if isinstance(t, ast.Name) else (t.left.id if isinstance(t, ast.Compare) and isinstance(t.left, ast.Name) else None)
+        test_ok = isinstance(t, ast.Name) or (isinstance(t, ast.Compare) and len(t.ops) == 1 and (
+            (isinstance(t.ops[0], ast.GtE) and try_const(t.comparators[0]) == 1) or (isinstance(t.ops[0], (ast.Gt, ast.NotEq)) and try_const(t.comparators[0]) == 0)))
+        lenv = {}
+        store = None
+        straight = all(isinstance(b, (ast.Assign, ast.AugAssign)) for b in loop.body)
+        if mvar and test_ok and straight:
+            for b in loop.body:
+                if isinstance(b, ast.Assign) and isinstance(b.targets[0], ast.Subscript) and U(b.targets[0].value) == buf:
+                    store = (subst(b.targets[0].slice, lenv), subst(b.value, lenv))
+                elif isinstance(b, ast.AugAssign) and isinstance(b.target, ast.Name):
+                    lenv[b.target.id] = subst(ast.BinOp(left=ast.Name(id=b.target.id, ctx=ast.Load()), op=b.op, right=b.value), lenv)
+                elif isinstance(b, ast.Assign) and isinstance(b.targets[0], ast.Name):
+                    lenv[b.targets[0].id] = subst(b.value, lenv)
+            if store is not None and isinstance(store[0], ast.Name):
+                ivar = store[0].id
+                sb_ = bv(store[1], env)
+                mb = bv(lenv[mvar], env) if mvar in lenv else None
+                il = lin_opaque(lenv[ivar], env) if ivar in lenv else None
+                i0 = try_const(sp.at(loop, ast.Name(id=ivar, ctx=ast.Load())), env)
+                ok_w = (sb_.bits == {p: (mvar, p) for p in range(8)} and not sb_.ones and mb is not None
+                        and all(mb.bits.get(p) == (mvar, p + 8) for p in range(64)) and il is not None and (il - Lin(1, {ivar: 1})).is_const()
+                        and (il - Lin(1, {ivar: 1})).c == 0 and i0 == 0)
+                wdetail = f"byte[{ivar}] <- {sb_}; {mvar} <- {mb}; {ivar} <- {il}; first index {i0}"
+    # ---- mantissa bytes: reader loop
+    rl = [n for n in body_walk(uf) if isinstance(n, ast.For)]
+    ok_r = False
+    rdetail = "reader loop not recognised"
+    if len(rl) == 1 and len(rl[0].body) == 1 and isinstance(rl[0].body[0], ast.Assign) and isinstance(rl[0].body[0].targets[0], ast.Name):
+        loop = rl[0]
+        dom = loop_domain(loop, uf, env)
+        acc = loop.body[0].targets[0].id
+        if dom and dom["var"]:
+            rb = bv(loop.body[0].value, env, byte_arrays={ubuf})
+            src = f"{ubuf}[{dom['var']}]"
+            horner = all(rb.bits.get(p) == (src, p) for p in range(8)) and all(rb.bits.get(p + 8) == (acc, p) for p in range(64)) and not rb.ones
+            init = bv(su.at(loop, ast.Name(id=acc, ctx=ast.Load())), env, byte_arrays={ubuf})
+            lo, hi = dom["lo"], dom["hi"]
+            full = lo.is_const() and hi.is_const() and lo.c == 0 and hi.c == 14
+            init_ok = (not init.bits and not init.ones) or (init.bits == {0: (f"{ubuf}[14]", 0)} and not init.ones)
+            used_after = U(m_expr) == acc or acc in U(su.at(jret[-1], m_expr))
+            ok_r = horner and dom["step"] == -1 and full and init_ok and used_after
+            rdetail = f"{acc} <- {rb} for {dom['var']} from {hi.c - 1 if hi.is_const() else hi} down to {lo.c if lo.is_const() else lo} (step {dom['step']}); initial {init}"
+    ok = ok_w and ok_r
+    rep.ob("C01.R3", uf, "mantissa bytes little-endian on both sides", ok,
+           "" if ok else f"writer: {wdetail}; reader: {rdetail}", key="C01.R3@mantissa-bytes")
+    # ---- sign
+    sign_w = [(i, b, c, n) for i, b, c, n in writes if c and b.ones and not b.bits]
+    neg_txt = {"value<0", f"{pf.args.args[0].arg}<0"}
+    ok = len(sign_w) == 1 and sign_w[0][0] == 15 and sign_w[0][1].ones == {7} and U(sign_w[0][2][0].test).replace(" ", "") in neg_txt
+    # reader: the mantissa is negated exactly when byte 15 bit 7 is set
+    neg = [n for n in body_walk(uf) if isinstance(n, ast.If) and any(isinstance(x, ast.UnaryOp) and isinstance(x.op, ast.USub) for b in n.body for x in ast.walk(b))]
+    r_ok = False
+    if len(neg) == 1:
+        t = su.at(neg[0], neg[0].test)
+        # accept  <bits>,  <bits> != 0,  (1 if <bits> else 0) == 1
+        core = t
+        if isinstance(core, ast.Compare) and len(core.ops) == 1:
+            l_, r_ = core.left, core.comparators[0]
+            if isinstance(core.ops[0], ast.Eq) and try_const(r_) == 1 and isinstance(l_, ast.IfExp) and try_const(l_.body) == 1 and try_const(l_.orelse) == 0:
+                core = l_.test
+            elif isinstance(core.ops[0], ast.NotEq) and try_const(r_) == 0:
+                core = l_
+        sbv = bv(core, env, byte_arrays={ubuf})
+        r_ok = sbv.bits == {7: (f"{ubuf}[15]", 7)} and not sbv.ones
+    rep.ob("C01.R3", pf, "sign bit placed identically", ok and r_ok,
+           "" if ok and r_ok else f"writer sign writes: {[(i, repr(b)) for i, b, c, n in sign_w]}; reader negates on `{U(neg[0].test) if neg else None}`", key="C01.R3@sign")
 
 
 def _anc(n):
